@@ -976,9 +976,75 @@ def _nnf(test, pol, out):
     return out
 
 
+def lift_conditionals(expr, budget: int = 64):
+    """f(a if c else b)  ->  f(a) if c else f(b): conditional expressions nested in call arguments, receivers, operands, subscripts and
+    displays are lifted to the top (not out of and/or operands, comprehensions, lambdas or the test of another conditional)"""
+    import copy
+
+    def find(e, path):
+        """path to the first liftable IfExp below e"""
+        if isinstance(e, ast.IfExp):
+            return path
+        if isinstance(e, (ast.BoolOp, ast.Lambda, ast.ListComp, ast.SetComp, ast.GeneratorExp, ast.DictComp)):
+            return None
+        for f, v in ast.iter_fields(e):
+            if isinstance(v, ast.expr):
+                r = find(v, path + [(f, None)])
+                if r is not None:
+                    return r
+            elif isinstance(v, list):
+                for i, x in enumerate(v):
+                    if isinstance(x, ast.keyword):
+                        r = find(x.value, path + [(f, i), ("value", None)])
+                        if r is not None:
+                            return r
+                    elif isinstance(x, ast.expr):
+                        r = find(x, path + [(f, i)])
+                        if r is not None:
+                            return r
+        return None
+
+    def get(e, path):
+        for f, i in path:
+            e = getattr(e, f)
+            if i is not None:
+                e = e[i]
+        return e
+
+    def put(e, path, new):
+        e = copy.deepcopy(e)
+        cur = e
+        for f, i in path[:-1]:
+            cur = getattr(cur, f)
+            if i is not None:
+                cur = cur[i]
+        f, i = path[-1]
+        if i is None:
+            setattr(cur, f, new)
+        else:
+            getattr(cur, f)[i] = new
+        return e
+
+    count = [0]
+
+    def lift(e):
+        if isinstance(e, ast.IfExp):
+            return ast.IfExp(test=e.test, body=lift(e.body), orelse=lift(e.orelse))
+        path = find(e, [])
+        if not path:
+            return e
+        count[0] += 1
+        if count[0] > budget:
+            return e
+        inner = get(e, path)
+        return ast.IfExp(test=inner.test, body=lift(put(e, path, inner.body)), orelse=lift(put(e, path, inner.orelse)))
+    return ast.fix_missing_locations(lift(expr))
+
+
 def decision_leaves(expr):
     """[(frozenset of (condition source, polarity)), value expr)] for every leaf of a tree of conditional expressions"""
     out = []
+    expr = lift_conditionals(expr)
 
     def walk(e, conds):
         if isinstance(e, ast.IfExp):
